@@ -40,6 +40,34 @@ func (e *daemonEngine) applyExtra(a Act, n *dNode) {
 		if n != nil {
 			e.stopBeacon(n, a.S)
 		}
+	case "corrupt_db":
+		if n != nil {
+			p := filepath.Join(n.dir, "multibeacon", a.S, "db", "drand.db")
+			n.mu.Lock()
+			isStopped := n.stopped[a.S]
+			n.mu.Unlock()
+			if fi, err := os.Stat(p); err == nil && fi.Size() > 64 && isStopped {
+				_ = os.WriteFile(p, bytes.Repeat([]byte("not a database "), 300), 0o660)
+				e.rec.Count("fault:chain_db_damaged", 1)
+			}
+		}
+	case "loosen_modes":
+		if n != nil {
+			_ = filepath.Walk(n.dir, func(p string, fi os.FileInfo, err error) error {
+				if err == nil && !fi.IsDir() && strings.HasSuffix(p, ".private") {
+					b, _ := os.ReadFile(p)
+					_ = os.Chmod(p, 0o644)
+					n.mu.Lock()
+					if n.loosened == nil {
+						n.loosened = map[string][32]byte{}
+					}
+					n.loosened[filepath.Base(p)] = sha256Digest(b)
+					n.mu.Unlock()
+					e.rec.Count("fault:secret_file_mode_loosened", 1)
+				}
+				return nil
+			})
+		}
 	case "load_beacon":
 		if n != nil {
 			e.loadBeacon(n, a.S)
@@ -318,6 +346,12 @@ func (e *daemonEngine) timedCall(n *dNode, method string, msg proto.Message, lab
 	e.rec.Count("fuzz:"+label, 1)
 	select {
 	case err := <-done:
+		if e.keepIO && err != nil {
+			e.wireMu.Lock()
+			e.wire.WriteString(err.Error())
+			e.wire.WriteByte(0)
+			e.wireMu.Unlock()
+		}
 		return true, err
 	case <-time.After(bound):
 		e.rec.Violate("C14", "request-never-returned", label, "node %s: %s (%s) did not return within %s of virtual time although its caller's deadline was %s", n.addr, method, label, bound, unaryTimeout)
@@ -519,6 +553,12 @@ func (e *daemonEngine) scanSecrets() {
 				}
 				for _, enc := range s.enc {
 					if len(enc) >= 16 && bytes.Contains(b, enc) {
+						n.mu.Lock()
+						h, was := n.loosened[filepath.Base(p)]
+						n.mu.Unlock()
+						if was && h == sha256Digest(b) {
+							return nil // still the file the "restore" left behind: drand has not written it since
+						}
 						if fi.Mode().Perm()&0o077 != 0 {
 							rel, _ := filepath.Rel(n.dir, p)
 							e.rec.Violate("C15", "secret-file-not-owner-only", filepath.Base(p), "%s holds the %s of %s with mode %o", rel, s.what, n.addr, fi.Mode().Perm())
@@ -552,6 +592,7 @@ func (e *daemonEngine) stopBeacon(n *dNode, id string) {
 			n.stopped = map[string]bool{}
 		}
 		n.stopped[id] = true
+		delete(n.limbo, id)
 		n.mu.Unlock()
 		e.rec.Count("fault:beacon_stopped", 1)
 	}
@@ -568,6 +609,17 @@ func (e *daemonEngine) loadBeacon(n *dNode, id string) {
 	defer n.bumpRoute()
 	_, err := dd.LoadBeacon(context.Background(), &drand.LoadBeaconRequest{Metadata: &drand.Metadata{BeaconID: id}})
 	e.rec.Ev("load_beacon", n.addr, "%s err=%v", id, err)
+	if err != nil {
+		e.rec.Count("probe:load_beacon_failed", 1)
+		// loaded half-way: what this id resolves to is not specified until it is stopped again
+		n.mu.Lock()
+		delete(n.stopped, id)
+		if n.limbo == nil {
+			n.limbo = map[string]bool{}
+		}
+		n.limbo[id] = true
+		n.mu.Unlock()
+	}
 	if err == nil {
 		n.mu.Lock()
 		delete(n.stopped, id)
@@ -608,6 +660,9 @@ func (e *daemonEngine) routeCheck(n *dNode, at int64) {
 		for k, v := range n.stopped {
 			st[k] = v
 		}
+		for k := range n.limbo {
+			st["limbo:"+k] = true
+		}
 		return n.routeVer, st
 	}
 	for _, io := range idOpts {
@@ -632,6 +687,9 @@ func (e *daemonEngine) routeCheck(n *dNode, at int64) {
 				expect = io.id
 			case ho.hash == nil && !io.set:
 				expect = "default"
+			}
+			if stopped["limbo:"+expect] || (ho.hid != "" && stopped["limbo:"+ho.hid]) || (io.set && stopped["limbo:"+io.id]) {
+				continue
 			}
 			if ho.bad || expect == "unknown-chain" || stopped[expect] {
 				expect = ""
@@ -677,7 +735,7 @@ func (e *daemonEngine) routeCheck(n *dNode, at int64) {
 	}
 	for _, id := range ids {
 		ver, stopped := snapshot()
-		if ver%2 == 1 {
+		if ver%2 == 1 || stopped["limbo:"+id] {
 			continue
 		}
 		rec := httptest.NewRecorder()
